@@ -463,3 +463,14 @@ def random_rel_over(rng, g):
 
 def replay(w, rec):
     check(rec, w["cell"], w["decls"], w["objective"], w["constraints"])
+
+
+# workloads added after the seventh round of seeded changes (DESIGN section 9): part of the rule of this check
+_RULE_ADDENDUM = 'edit histories incl. rejected constraint lists and constraints without an objective'
+_info_base = info
+
+
+def info(tier):  # noqa: F811
+    d = _info_base(tier)
+    d["rule"] = d["rule"] + "; " + _RULE_ADDENDUM
+    return d
